@@ -24,9 +24,11 @@ type c05Dec struct {
 }
 
 type c05Reuse struct {
-	Family string `json:"family"`
-	First  int    `json:"first_type"`
-	Second int    `json:"second_type"`
+	Family     string `json:"family"`
+	First      int    `json:"first_type"`
+	Second     int    `json:"second_type"`
+	ViaFamily  bool   `json:"via_family_decoder,omitempty"`  // Gmm/GsmMessageDecode instead of PlainNasDecode
+	FirstShort bool   `json:"first_input_truncated,omitempty"` // the first decode is rejected after the type dispatch
 }
 
 type c05Enc struct {
@@ -131,19 +133,29 @@ func c05ReuseExec(c *core.Ctx, in c05Reuse) {
 	if a == nil || b == nil {
 		return
 	}
+	if in.FirstShort {
+		a = a[:len(a)-1]
+	}
+	dec := func(m *nas.Message, data []byte) error {
+		d := append([]byte{}, data...)
+		if !in.ViaFamily {
+			return m.PlainNasDecode(&d)
+		}
+		if in.Family == "gmm" {
+			return m.GmmMessageDecode(&d)
+		}
+		return m.GsmMessageDecode(&d)
+	}
 	var reused, fresh *nas.Message
 	var e1, e2, e3 error
 	pi := core.Try(func() {
 		reused = nas.NewMessage()
-		d := append([]byte{}, a...)
-		e1 = reused.PlainNasDecode(&d)
-		d2 := append([]byte{}, b...)
-		e2 = reused.PlainNasDecode(&d2)
+		e1 = dec(reused, a)
+		e2 = dec(reused, b)
 		fresh = nas.NewMessage()
-		d3 := append([]byte{}, b...)
-		e3 = fresh.PlainNasDecode(&d3)
+		e3 = dec(fresh, b)
 	})
-	if pi != nil || e1 != nil || e2 != nil || e3 != nil {
+	if pi != nil || (e1 != nil) != in.FirstShort || e2 != nil || e3 != nil {
 		c.Fail("reuse|"+in.Family+"|decode-fails", fmt.Sprintf("decoding types %#x then %#x into one message: %v %v %v %v", in.First, in.Second, pi, e1, e2, e3))
 		return
 	}
@@ -158,7 +170,7 @@ func c05ReuseExec(c *core.Ctx, in c05Reuse) {
 		for _, x := range bodiesOf(reused) {
 			got = append(got, x.name)
 		}
-		c.Fail("reuse|"+in.Family+"|stale-body", fmt.Sprintf("after decoding type %#x and then %#x into the same message the populated bodies are %v", in.First, in.Second, got))
+		c.Fail("reuse|"+in.Family+"|stale-body", fmt.Sprintf("after decoding type %#x and then %#x into the same message (family decoder: %v, first input truncated: %v) the populated bodies are %v", in.First, in.Second, in.ViaFamily, in.FirstShort, got))
 	}
 }
 
@@ -317,10 +329,14 @@ func c05Run(c *core.Ctx) {
 				continue
 			}
 			for _, b := range types[fam] {
-				in := c05Reuse{Family: fam, First: a, Second: b}
-				if c.Begin("reuse", "decode", in) {
-					n++
-					c05ReuseExec(c, in)
+				for _, via := range []bool{false, true} {
+					for _, short := range []bool{false, true} {
+						in := c05Reuse{Family: fam, First: a, Second: b, ViaFamily: via, FirstShort: short}
+						if c.Begin("reuse", "decode", in) {
+							n++
+							c05ReuseExec(c, in)
+						}
+					}
 				}
 			}
 		}
@@ -367,7 +383,7 @@ func init() {
 		ID: "C05", Level: "model_checking", Run: c05Run,
 		Shards: func(string) int { return 16 },
 		Rule: func(string) string {
-			return "all 256 x 256 (first octet, message type) pairs at both header offsets ([o,00,t] and [o,00,00,t]), each followed by the minimal valid body of the message the pair names (also one octet short and with one trailing unknown octet) and by {nothing, one, sixteen} zero octets, through PlainNasDecode and the family decoder; all inputs of length 0..1, nil; reuse of one message for every ordered pair of assigned types of a family; encode for all 256 types x {5GMM, 5GSM} x {family encoder, PlainNasEncode} x {no body, another body, own body}. Oracle: the pinned message-type table (accept iff discriminator and type are assigned and the body is valid; exactly one family and exactly the named body populated; header view = input header = body header octets; errors otherwise)."
+			return "all 256 x 256 (first octet, message type) pairs at both header offsets ([o,00,t] and [o,00,00,t]), each followed by the minimal valid body of the message the pair names (also one octet short and with one trailing unknown octet) and by {nothing, one, sixteen} zero octets, through PlainNasDecode and the family decoder; all inputs of length 0..1, nil; reuse of one message for every ordered pair of assigned types of a family through PlainNasDecode and through the family decoder, with a valid and with a truncated (rejected) first input; encode for all 256 types x {5GMM, 5GSM} x {family encoder, PlainNasEncode} x {no body, another body, own body}. Oracle: the pinned message-type table (accept iff discriminator and type are assigned and the body is valid; exactly one family and exactly the named body populated; header view = input header = body header octets; errors otherwise)."
 		},
 		Assumptions: []string{
 			"'a message with no body' is read as 'neither GmmMessage nor GsmMessage'; a family header with an assigned type but a nil body of that type is not asserted (the statement is ambiguous there)",
